@@ -2287,3 +2287,10 @@ CONTROLS['C11'] += [
       "        _delete_allocations_for_consumer(context, consumer_id)\n",
       'R11.'),
 ]
+CONTROLS['C01'] += [
+    M('c01-class-enumerated-twice', H + 'allocation.py',
+      "    for resource_class in resources:\n",
+      "    for resource_class in list(resources) + [\n"
+      "            rc for rc in resources if rc.startswith('CUSTOM_')]:\n",
+      'R1.10'),
+]
